@@ -9,6 +9,7 @@ import (
 	"fmt"
 	"os"
 	"os/exec"
+	"runtime"
 	"sort"
 	"strings"
 	"testing"
@@ -29,6 +30,11 @@ type RunCtx struct {
 	Sim     *simrt.Sim
 	Sample  map[string]any // human-readable description of this run's configuration
 	Params  map[string]string
+	// DirtyPools is set by harnesses whose libraries keep sync.Pool-ed objects
+	// tied to a bubble (nats.go's global timer pool): the pools are emptied by
+	// two garbage collections after the run so that the next bubble cannot
+	// pick up a timer of this one.
+	DirtyPools bool
 	// Nontrivial is set by the harness when the run exercised at least one
 	// fault or at least two concurrently live tasks.
 	Nontrivial bool
@@ -145,12 +151,25 @@ func RunOne(t *testing.T, hname, prop string, params map[string]string, tape *si
 			}
 		})
 	}()
+	if rc != nil && rc.DirtyPools {
+		runtime.GC()
+		runtime.GC()
+	}
 	if rc != nil && rc.Sim != nil {
 		s := rc.Sim
 		res.Steps = s.Step
 		res.SimNS = int64(s.End)
 		res.Fingerprint = s.Fingerprint()
 		res.Violations = s.Violations
+		for i := range res.Violations {
+			// runtime-detected classes are attributed to the property under check
+			switch res.Violations[i].Class {
+			case "panic":
+				res.Violations[i].Class = prop + "/panic"
+			case "lockset-race":
+				res.Violations[i].Class = prop + "/lockset-race"
+			}
+		}
 		res.Counters = s.Counters
 		res.TimedOut = s.TimedOut
 		res.StepLimit = s.StepLimit
